@@ -6,6 +6,7 @@ import CamVerif.Proofs.C17Kinds
 set_option linter.unusedSimpArgs false
 namespace CamVerif.XmlParse
 variable {F : Type}
+variable [TextFrag]
 
 /-! ### float immediates / references -/
 
